@@ -61,6 +61,7 @@ pub fn content_addressed() {
     a.m.update(doc_with(&["a", "b"], &["x".to_string(), "y".to_string()], "t")).unwrap();
     let info = obj(json!({"author": "é√", "msg": sym::string(PRINTABLE, 1, 1), "nested": {"n": [1, -2, {"k": "q\"\\"}], "e": {}}, "i": 1234567890123i64}));
     a.m.commit(Some(info)).unwrap();
+    let first = a.m.get_anchors();
     let s1 = dump(&a.ad);
     check_grows(&s0, &s1);
     check_names(&s1);
@@ -116,6 +117,13 @@ pub fn content_addressed() {
     a.m.reload().unwrap();
     let _ = state(&a.m);
     assert!(dump(&a.ad) == s3, "an operation other than commit / meld changed the storage");
+    // a commit made after travelling back to the first block (later blocks stay loaded but unapplied) follows the same rules
+    a.m.reload_until(&first).expect("reload_until the first block");
+    a.m.update(doc_with(&["a", "c"], &["x".to_string(), "q".to_string()], "v")).unwrap();
+    a.m.commit(None).unwrap().expect("commit after time travel produced no block");
+    let s4 = dump(&a.ad);
+    check_grows(&s3, &s4);
+    check_names(&s4);
     sym::reach(1);
 }
 
